@@ -7,7 +7,7 @@
 use crate::{
     common::Run,
     genstate::{
-        check_c12, corr_line, derived_of, describe, observe, pick_value, request_line,
+        check_c12, corr_line, derived_of, describe, fp_line, observe, pick_value, request_line,
         uses_search, Case, ACCS, CATCH, MANIA, MODE_NAMES, N_FIELDS, OSU, TAIKO,
     },
     rng::Rng,
@@ -17,6 +17,11 @@ struct Ctx<'a> {
     run: Run,
     only: Option<&'a str>,
     counter: [u64; 4],
+    /// `FP` lines still to emit per mode, and one in how many cases gets one
+    fp_budget: [usize; 4],
+    /// separate budget for the large random shapes (generated last)
+    fp_budget_large: [usize; 4],
+    fp_every: u64,
 }
 
 impl Ctx<'_> {
@@ -57,6 +62,15 @@ impl Ctx<'_> {
             run.sample(format!("{id}: {}", describe(&c, d)));
         }
         corr_line(run, &id, &c, d, &o);
+        // builder inputs -> pp (Model/FullPerf.lean): hand-picked cases, every `fp_every`-th enumerated one,
+        // every large random one, within the per-mode budget
+        let large = tag == "random-large";
+        let sampled = tag == "regression" || tag == "witness" || large || self.counter[mode] % self.fp_every == 0;
+        let budget = if large { &mut self.fp_budget_large[mode] } else { &mut self.fp_budget[mode] };
+        if sampled && *budget > 0 {
+            *budget -= 1;
+            fp_line(run, &id, &c, d, &o);
+        }
         check_c12(run, &id, &c, d, &o);
     }
 }
@@ -160,7 +174,8 @@ fn fill_aux(rng: &mut Rng, mode: u8, attrs: &[u32; 4], fields: &mut [Option<u32>
 
 pub fn run(tier: &str, seed: u64, only: Option<&str>) -> Run {
     let thorough = tier == "thorough";
-    let mut cx = Ctx { run: Run::default(), only, counter: [0; 4] };
+    let fp = if thorough { 10_000 } else { 2_000 };
+    let mut cx = Ctx { run: Run::default(), only, counter: [0; 4], fp_budget: [fp; 4], fp_budget_large: [fp / 2; 4], fp_every: if thorough { 23 } else { 17 } };
     let mut rng = Rng::new(seed ^ 0xC12);
 
     // 0. the two defects fixed earlier (must stay fixed) and hand-picked corners
